@@ -115,6 +115,52 @@ def tree_module():
     return mod
 
 
+class RefWorld:
+    """A second, completely separate copy of the pymoca package in this interpreter (own module objects for pymoca.ast,
+    pymoca.tree, the parser, the backends ...): the *reference process*.  Inside `with ref_world:` every `import pymoca...`
+    (and every unpickling of a tree) resolves to that copy, so a reference computation shares no module-level or
+    class-level state with the code under test.  Only plain data (digests) may leave the block."""
+
+    PREFIXES = ("pymoca", "tools")
+
+    def __init__(self, label="0.0.verif-ref.dirty"):
+        saved = self._take()
+        try:
+            setup_paths()
+            import pymoca
+
+            pymoca.__version__ = label
+            import pymoca.ast  # noqa: F401
+            import pymoca.parser  # noqa: F401
+            import pymoca.tree  # noqa: F401
+            import pymoca.backends.sympy.generator  # noqa: F401
+            import pymoca.backends.xml.generator  # noqa: F401
+            import pymoca.backends.casadi.generator  # noqa: F401
+        finally:
+            self.mods = self._take()
+            sys.modules.update(saved)
+        self._outer = None
+
+    @classmethod
+    def _take(cls):
+        out = {}
+        for k in list(sys.modules):
+            if any(k == p or k.startswith(p + ".") for p in cls.PREFIXES):
+                out[k] = sys.modules.pop(k)
+        return out
+
+    def __enter__(self):
+        self._outer = self._take()
+        sys.modules.update(self.mods)
+        return self
+
+    def __exit__(self, *exc):
+        self.mods = self._take()  # (modules imported lazily inside the block belong to the reference copy)
+        sys.modules.update(self._outer)
+        self._outer = None
+        return False
+
+
 class ApiProcess:
     """A simulated process as far as the CasADi API is concerned: a fresh module instance of
     pymoca.backends.casadi.api bound to its own version label."""
